@@ -321,6 +321,14 @@ type atom struct {
 var rtWords = []string{"a", "abc", "x1", "a_b", "a.b", "v0", "\u00e9t\u00e9", "\u65e5\u672c", "A", "and", "or", "not", "in", "fields", "_", "42", "\u0663"}
 var rtTexts = []string{"", "a", "a b", "it's", "say \"hi\"", "a*b", "*", "back\\slash", "tab\there", "new\nline", "\u00e9", "\ue000", "x\ue000y", "a#b", "(x)", "k:v", "`", "'", "\"", "\\", "\\*", "\U0001F600", "\ufffd", "a, b | c"}
 var rtRaw = []string{"", "a", "a b", "a\\nb", "a*b", "\\", "\"'", "a#b\nc", "\ue000", "\u00e9", "\\*"}
+// quoted source text with escape sequences -> expected token text (by the documented rules:
+// Go escapes are decoded, \* is an asterisk, an invalid escape keeps its backslash)
+var rtEsc = [][2]string{
+	{`"a\qb"`, `a\qb`}, {`"\777"`, `\777`}, {`'\9'`, `\9`}, {`"\x4g"`, `\x4g`}, {`"\u12"`, `\u12`}, {`"tab\there"`, "tab\there"},
+	{`"\x41\u00e9\101"`, "A\u00e9A"}, {`'\''`, `'`}, {`"\'"`, `\'`}, {`'\"'`, `\"`}, {`"\U0001F600"`, "\U0001F600"}, {`"\xff"`, "\u00ff"},
+	{`"\ud800"`, `\ud800`}, {`"\q\q"`, `\q\q`}, {`"\\\q"`, `\\q`}, {`"\a\b\f\n\r\t\v"`, "\a\b\f\n\r\t\v"}, {`"x\"`, ""},
+}
+
 var rtSyms = []string{"(", ")", ":", ",", "|", "[", "]", "-", "$", "@", "/", "=", "\u00bd", "\u20ac"}
 
 func quoteWith(q byte, s string) string {
@@ -356,7 +364,7 @@ func roundCases(w *casefile.Writer, r *rng.R, n int) {
 		}
 		prevWord := false
 		for k := r.Range(1, 7); k > 0; k-- {
-			a := atom{style: r.Intn(6)}
+			a := atom{style: r.Intn(7)}
 			var src string
 			t := parser.VerifTok{}
 			switch a.style {
@@ -371,6 +379,9 @@ func roundCases(w *casefile.Writer, r *rng.R, n int) {
 				a.text = rng.Pick(r, rtRaw)
 				src = "`" + a.text + "`"
 				t.Text, t.Quoted, t.Raw = a.text, true, true
+			case 6:
+				e := rng.Pick(r, rtEsc[:len(rtEsc)-1])
+				src, t.Text, t.Quoted = e[0], e[1], true
 			case 4:
 				a.text = rng.Pick(r, rtSyms)
 				src, t.Text = a.text, a.text
